@@ -393,6 +393,34 @@ def audit_scenarios(tier):
                                     ['sleep', 1.5],
                                     ['sched', c, 0.5, 'f1']]},
                 'horizon': 4.0}))
+    # S21: the exception alphabet: a task raising the built-in StopIteration
+    # (or a subclass of it that is not the library's StopStream) is an error
+    # like ValueError: logged, not re-scheduled, the others go on; StopStream
+    # itself is normal termination (nothing demanded but that the others go
+    # on); a generator routine whose body raises StopIteration
+    for c in ('s', 't', 'a'):
+        for exc, kind in (('StopIteration', 'func'), ('StopSub', 'awakeable'),
+                          ('StopStream', 'func')):
+            out.append(('S21', {
+                'clocks': clocks_for(c),
+                'funcs': {'f0': {'kind': kind},
+                          'f1': {'kind': kind, 'raises': [0], 'exc': exc,
+                                 'returns': [0.25, None]},
+                          'f2': {'kind': kind, 'returns': [0.5, None]}},
+                'actors': {'main': [['sched', c, 0.5, 'f0'],
+                                    ['sched', c, 0.5, 'f1'],
+                                    ['sched', c, 0.5, 'f2'],
+                                    ['sleep', 1.5],
+                                    ['sched', c, 0.5, 'f1']]},
+                'horizon': 4.0}))
+        out.append(('S21', {
+            'clocks': clocks_for(c), 'funcs': {'f0': {}, 'f1': {}},
+            'routines': {'r0': [['yield', 0.25],
+                                ['raisex', 'StopIteration']]},
+            'actors': {'main': [['play', 'r0', c, 0],
+                                ['sched', c, 0.25, 'f0'],
+                                ['sched', c, 0.5, 'f1']]},
+            'horizon': 3.0}))
     # S8c: one object pending on two clocks at once: each clock awakens it
     for c1, c2 in (('s', 't'), ('s', 'a'), ('t', 'a')):
         cl = dict(clocks_for(c1))
@@ -613,6 +641,10 @@ def check_trace(prog, res):
     kindof = {fid: spec.get('kind', 'func') for fid, spec in funcs.items()}
     raise_at = {fid: set(spec.get('raises', []))
                 for fid, spec in funcs.items()}
+    # awakenings that end with the stream-end signal are normal termination:
+    # not re-scheduled, nothing has to be logged
+    silent = {fid for fid, spec in funcs.items()
+              if spec.get('exc') == 'StopStream'}
     for rid, stmts in prog.get('routines', {}).items():
         rets = []
         for st in stmts:
@@ -620,7 +652,9 @@ def check_trace(prog, res):
                 rets.append(st[1])
             elif st[0] in ('yieldv', 'wait'):
                 rets.append(None)
-            elif st[0] == 'raise':
+            elif st[0] in ('raise', 'raisex'):
+                # (StopIteration raised inside a generator body reaches the
+                # clock as RuntimeError, PEP 479: an error like any other)
                 raise_at[rid] = {len(rets)}
                 break
         funcs[rid] = {'returns': rets + [None]}
@@ -645,6 +679,7 @@ def check_trace(prog, res):
     cur_log = {}      # task name -> logical seconds of its latest awakening
     inflight = {}     # caller -> [task name, queue, expected prio | None]
     nraise = 0
+    raised = set()    # tasks whose latest awakening raised
     horizon = prog.get('horizon', 4.0)
     # a tempo / beats change made from a plain thread is not atomic with
     # respect to the clock thread: what happens on that clock at the very
@@ -747,6 +782,10 @@ def check_trace(prog, res):
                         'the logical time of the awakened task inside an '
                         'awake call')
             elif thread not in actor_threads:
+                if name in raised:
+                    bad('rescheduled-after-error', 'a task whose awakening '
+                        'raised is not re-scheduled by the clock', [q, prio],
+                        name)
                 exp = expect_add.pop(name, None)
                 if exp is not None:
                     eq, eprio = exp
@@ -764,8 +803,11 @@ def check_trace(prog, res):
             pq = pending.get(q, {})
             cands = [(v[0], v[1], key) for key, v in pq.items()
                      if v[4] == name]
+            raised.discard(name)
             if n in raise_at.get(name, ()):
-                nraise += 1
+                raised.add(name)
+                if name not in silent:
+                    nraise += 1
             if not cands:
                 bad('wake-without-pending-scheduling',
                     f'{name} not pending on {q}', e,
@@ -929,11 +971,30 @@ def _q(prog, cid):
 #   ['etempo', cid, v]            TempoClock.etempo(v)
 #   ['stoppub', cid]              TempoClock.stop() (public, asynchronous)
 #   ['stopall']                   TempoClock.stop_all()
+#   ['raisex', name]              (routine statement) raise _exc_class(name)
+# funcs spec 'exc': name          class raised by the calls listed in 'raises'
 # events
 #   'add' carries the name of the thread that made the insertion (7th field)
 #   ['logged', logger, level, has_exc_info, thread]  every record of the
 #       library's loggers
 #   ['run2'] marker: the extended interpreter was in place
+
+class _StopSub(StopIteration):
+    pass
+
+
+def _exc_class(name):
+    """Exception alphabet of raising tasks ('exc' of a funcs spec, operand
+    of the routine statement ['raisex', name]).  StopStream is the library's
+    stream-end signal: the clocks treat it as normal termination (nothing
+    logged); the built-in StopIteration and its other subclasses are errors
+    like any other."""
+    if name == 'StopStream':
+        from sc3.base.stream import StopStream
+        return StopStream
+    return {'ValueError': ValueError, 'StopIteration': StopIteration,
+            'StopSub': _StopSub}[name]
+
 
 _NEW_OPS = ('cplay', 'playbar', 'defer', 'etempo', 'stoppub', 'stopall')
 _LOG = {}
@@ -995,7 +1056,8 @@ def _run2_class():
                 for st in does.get(str(k), []):
                     run.do(st, fid, clock)
                 if k in raises:
-                    raise ValueError(f'task {fid} call {k}')
+                    raise _exc_class(spec.get('exc', 'ValueError'))(
+                        f'task {fid} call {k}')
                 r = returns[k] if k < len(returns) else None
                 if spec.get('numtype') and isinstance(r, (int, float)):
                     r = (rtprog._Dur(r) if isinstance(r, float)
@@ -1029,6 +1091,8 @@ def _run2_class():
 
         def do(self, st, who, clock=None):
             op = st[0]
+            if op == 'raisex':      # routine body raises this exception
+                raise _exc_class(st[1])(f'routine {who}')
             if not (op in _NEW_OPS or
                     (op == 'sched_abs' and st[3] in self.routines)):
                 if op in ('tempo', 'beats') and who in self.funcs:
